@@ -567,6 +567,9 @@ func writeSetMonitor(r *explore.Run) {
 			c.Nontrivial(explore.Hash(s))
 		})
 	}
+	if r.Replaying() {
+		return
+	}
 	nr, reads := verifrt.NonReadAccesses()
 	r.Extra("monitor_read_accesses", reads)
 	r.Extra("monitor_non_read_accesses", nr)
@@ -585,6 +588,9 @@ var raceFrame = regexp.MustCompile(`(?m)^\s+(github\.com/cloudspannerecosystem/m
 
 // racePass runs the free-running race-detector binary.
 func racePass(r *explore.Run) {
+	if r.Replaying() {
+		return
+	}
 	bin := os.Getenv("VERIF_RACE_BIN")
 	if bin == "" {
 		r.Extra("race_pass", "skipped (no race binary)")
@@ -634,6 +640,20 @@ func C18race(r *explore.Run) {
 	var wg sync.WaitGroup
 	var mu sync.Mutex
 	bad := ""
+	// ASTs shared by all goroutines: SQL(), Pos()/End() and Walk on the same tree must be read-only
+	var shared []ast.Node
+	var sharedObs [][]string
+	for _, in := range []string{"SELECT a, `b c` FROM t WHERE x = 1 AND y IN (1, 2)", "CREATE TABLE t (a INT64, b STRING(MAX)) PRIMARY KEY (a)", "INSERT INTO t (a) VALUES (1)"} {
+		res := EntryByName("ParseStatement").Call(in)
+		if res.Panic == nil && len(res.Roots) == 1 {
+			shared = append(shared, res.Roots[0])
+			var o []string
+			for _, op := range purityOps {
+				o = append(o, op.run(res.Roots[0]))
+			}
+			sharedObs = append(sharedObs, o)
+		}
+	}
 	for g := 0; g < G; g++ {
 		g := g
 		wg.Add(1)
@@ -647,6 +667,14 @@ func C18race(r *explore.Run) {
 					bad = purityCalls[k].name
 					mu.Unlock()
 				}
+				for si, n := range shared {
+					op := purityOps[(g+i)%len(purityOps)]
+					if op.run(n) != sharedObs[si][(g+i)%len(purityOps)] {
+						mu.Lock()
+						bad = op.name + " on a shared AST"
+						mu.Unlock()
+					}
+				}
 			}
 		}()
 	}
@@ -655,7 +683,7 @@ func C18race(r *explore.Run) {
 		fmt.Printf("RACE-PASS-MISMATCH %s\n", bad)
 		os.Exit(1)
 	}
-	fmt.Printf("race pass: %d goroutines x %d iterations over %d calls, no race reported, all results equal the sequential ones\n", G, I, len(purityCalls))
+	fmt.Printf("race pass: %d goroutines x %d iterations over %d calls + SQL/Pos/End/Walk on %d shared ASTs, no race reported, all results equal the sequential ones\n", G, I, len(purityCalls), len(shared))
 	os.Exit(0)
 }
 
